@@ -617,7 +617,14 @@ fn check_pair<T: Int>(raw: [i128; 4], shape: &'static str, rep: &mut Report, tal
             rep.inconclusive(format!("oracle value {:?} not canonical / not representable on {}:{:?}", q, T::NAME, raw));
             return;
         }
-        rep.max("max_result_bits", bits(q.n).max(bits(q.d)));
+        rep.max(
+            match T::ID {
+                32 => "max_result_bits_i32",
+                64 => "max_result_bits_i64",
+                _ => "max_result_bits_i128",
+            },
+            bits(q.n).max(bits(q.d)),
+        );
     }
     // ---- classification (evidence only)
     let g_raw_x = ogcd(a, b);
@@ -936,9 +943,9 @@ fn main() {
             Job { ty: Ty::I64, kind: Kind::Box(6), count: box_total(6) },
             Job { ty: Ty::I32, kind: Kind::Box(4), count: box_total(4) },
             Job { ty: Ty::I128, kind: Kind::Box(4), count: box_total(4) },
-            Job { ty: Ty::I64, kind: Kind::Sample, count: a.u64("samples", 40_000) },
-            Job { ty: Ty::I32, kind: Kind::Sample, count: a.u64("samples", 40_000) / 4 },
-            Job { ty: Ty::I128, kind: Kind::Sample, count: a.u64("samples", 40_000) / 4 },
+            Job { ty: Ty::I64, kind: Kind::Sample, count: a.u64("samples", 160_000) },
+            Job { ty: Ty::I32, kind: Kind::Sample, count: a.u64("samples", 160_000) / 4 },
+            Job { ty: Ty::I128, kind: Kind::Sample, count: a.u64("samples", 160_000) / 4 },
         ]
     };
     let pools = [Pool::new(Ty::I32.bound_log2()), Pool::new(Ty::I64.bound_log2()), Pool::new(Ty::I128.bound_log2())];
@@ -950,8 +957,7 @@ fn main() {
     let total: u64 = jobs.iter().map(|j| j.count).sum();
     let q = WorkQueue::new(total);
     let jobs = &jobs;
-    let rep = common::run_sharded(a.threads(), |_shard, rep| {
-        rep.sample_cap = 1;
+    let rep = common::run_sharded(a.threads(), |shard, rep| {
         let mut tally = Tally::default();
         while let Some((lo, hi)) = q.take_block(128) {
             for idx in lo..hi {
@@ -966,12 +972,14 @@ fn main() {
                 }
                 match job.kind {
                     Kind::Box(m) => {
+                        rep.sample_cap = if shard % 4 == 0 { 1 } else { 0 };
                         tally.bump("pairs_exhaustive_box");
                         job.ty.check(box_decode(m, k), "box", rep, &mut tally, false);
                     }
                     Kind::Sample => {
                         let mut rng = Rng::new(mix(&[seed, job.ty.id(), k]));
                         let (raw, shape) = pool_of(job.ty).gen_pair(&mut rng);
+                        rep.sample_cap = 1;
                         tally.bump("pairs_sampled");
                         job.ty.check(raw, shape, rep, &mut tally, false);
                     }
